@@ -1837,6 +1837,325 @@ def search_scan_to_index_scan(P, fn, stmts):
     return out if changed else stmts
 
 
+
+def inline_self_expression_methods(P, fn, stmts):
+    """`x = self.h(a)` / `return self.h(a)` / `self.f = self.h()` where h is a method of the owner class whose whole body is `return <expression>`
+    (`def _empty_data_table(self): return {p: [] for p in self._probes}`), called with simple arguments: the statement with that expression in
+    place of the call.  Only a call that is the entire right-hand side is replaced, so the order of evaluation is unchanged."""
+    import copy
+    from .norm import simple_return
+    owner = _owner_class(P, fn)
+    if owner is None:
+        return stmts
+
+    def simple(e):
+        return isinstance(e, (ast.Name, ast.Constant)) or (isinstance(e, ast.Attribute) and simple(e.value))
+
+    def expand(call):
+        if not (isinstance(call, ast.Call) and isinstance(call.func, ast.Attribute) and isinstance(call.func.value, ast.Name) and call.func.value.id == 'self') or call.keywords:
+            return None
+        hit = P.lookup(owner, call.func.attr)
+        if not hit or hit[1] != 'method':
+            return None
+        fd = hit[2]
+        if fd is fn or fd.decorator_list or fd.args.vararg or fd.args.kwarg or fd.args.kwonlyargs or fd.args.defaults:
+            return None
+        body = [x for x in fd.body if not (isinstance(x, ast.Expr) and isinstance(x.value, ast.Constant))]
+        if len(body) != 1 or not isinstance(body[0], ast.Return) or body[0].value is None:
+            return None
+        e = body[0].value
+        if not isinstance(e, (ast.DictComp, ast.ListComp, ast.Dict, ast.List, ast.Tuple)):
+            return None          # only container displays: everything else is followed through the call graph anyway
+        ps = [a.arg for a in fd.args.args]
+        if not ps or ps[0] != 'self' or len(ps) - 1 != len(call.args) or not all(simple(a) for a in call.args):
+            return None
+        if any(len(c.methods.get(fd.name, ())) for c in P.subclasses(hit[0]) if c is not hit[0] and fd.name in c.methods):
+            return None          # overridden somewhere below: dispatch is not decided
+        bind = dict(zip(ps[1:], call.args))
+        bound_in_e = {x.id for x in ast.walk(e) if isinstance(x, ast.Name) and isinstance(x.ctx, ast.Store)}
+        if bound_in_e & set(bind):
+            return None
+
+        class Put(ast.NodeTransformer):
+            def visit_Name(self_, x):
+                if x.id in bind and isinstance(x.ctx, ast.Load):
+                    return ast.copy_location(copy.deepcopy(bind[x.id]), x)
+                return x
+        r = Put().visit(copy.deepcopy(e))
+        for x in ast.walk(r):
+            ast.copy_location(x, call)
+        return ast.fix_missing_locations(r)
+    def pure_noarg(call):
+        """`self.h()` with h = `return <expression without calls>` (reads of fields and properties, arithmetic, a tuple or f-string of them):
+        a value that can be written in place wherever the call stands"""
+        if not (isinstance(call.func, ast.Attribute) and isinstance(call.func.value, ast.Name) and call.func.value.id == 'self') or call.args or call.keywords:
+            return None
+        hit = P.lookup(owner, call.func.attr)
+        if not hit or hit[1] != 'method':
+            return None
+        fd = hit[2]
+        if fd is fn or fd.decorator_list or len(fd.args.args) != 1 or fd.args.vararg or fd.args.kwarg:
+            return None
+        body = [x for x in fd.body if not (isinstance(x, ast.Expr) and isinstance(x.value, ast.Constant))]
+        if len(body) != 1 or not isinstance(body[0], ast.Return) or body[0].value is None:
+            return None
+        e = body[0].value
+        if not isinstance(e, (ast.Tuple, ast.JoinedStr)) or any(isinstance(x, (ast.Call, ast.Lambda, ast.Await, ast.Yield, ast.NamedExpr)) for x in ast.walk(e)):
+            return None
+        if any(fd.name in c.methods for c in P.subclasses(hit[0]) if c is not hit[0]):
+            return None
+        r = copy.deepcopy(e)
+        for x in ast.walk(r):
+            ast.copy_location(x, call)
+        return r
+
+    class Pure(ast.NodeTransformer):
+        hit = False
+
+        def visit_Call(self_, n):
+            self_.generic_visit(n)
+            r = pure_noarg(n)
+            if r is not None:
+                self_.hit = True
+                return r
+            return n
+
+        def visit_FunctionDef(self_, n):
+            return n
+
+        def visit_Lambda(self_, n):
+            return n
+    out, changed = [], False
+    for st in stmts:
+        st2 = st
+        if isinstance(st, (ast.Assign, ast.Return)) and st.value is not None:
+            r = expand(st.value)
+            if r is not None:
+                st2 = copy.copy(st)
+                st2.value = r
+                changed = True
+        if isinstance(st2, (ast.Expr, ast.Assign, ast.Return, ast.AugAssign)):
+            tr = Pure()
+            st3 = tr.visit(copy.deepcopy(st2))
+            if tr.hit:
+                st2 = ast.fix_missing_locations(st3)
+                changed = True
+        out.append(st2)
+    return out if changed else stmts
+
+
+def desugar_dict_comprehension_stores(fn, stmts):
+    """`T = {k: v for k in it}` (one generator, no condition, T a name or an attribute of self) is `T = {}` followed by
+    `for k in it: T[k] = v` -- the loop the comprehension stands for, written so that the rules about how a table is filled read it."""
+    import copy
+    out, changed = [], False
+    for st in stmts:
+        v = st.value if isinstance(st, ast.Assign) and len(st.targets) == 1 else None
+        t = st.targets[0] if v is not None else None
+        if isinstance(v, ast.DictComp) and len(v.generators) == 1 and not v.generators[0].ifs and not v.generators[0].is_async \
+                and (isinstance(t, ast.Name) or (isinstance(t, ast.Attribute) and isinstance(t.value, ast.Name) and t.value.id == 'self')) \
+                and not any(isinstance(x, (ast.Name, ast.Attribute)) and ast.unparse(x) == ast.unparse(t) for x in ast.walk(v)):
+            gen = v.generators[0]
+            init = ast.copy_location(ast.Assign(targets=[copy.deepcopy(t)], value=ast.copy_location(ast.Dict(keys=[], values=[]), st)), st)
+            tl = copy.deepcopy(t)
+            for x in ast.walk(tl):
+                if hasattr(x, 'ctx'):
+                    x.ctx = ast.Load()
+            store = ast.Assign(targets=[ast.Subscript(value=tl, slice=copy.deepcopy(v.key), ctx=ast.Store())], value=copy.deepcopy(v.value))
+            loop = ast.For(target=copy.deepcopy(gen.target), iter=copy.deepcopy(gen.iter), body=[store], orelse=[], type_comment=None)
+            for n_ in (store, loop):
+                ast.copy_location(n_, st)
+            for x in ast.walk(loop):
+                if not hasattr(x, 'lineno'):
+                    ast.copy_location(x, st)
+            ast.fix_missing_locations(init)
+            ast.fix_missing_locations(loop)
+            out += [init, loop]
+            changed = True
+        else:
+            out.append(st)
+    return out if changed else stmts
+
+
+
+def hoist_any_all_tests(fn, stmts):
+    """`return any(<generator>)` and `if any(<generator>): ...` (also `all`, also under `not`) are `flag = any(<generator>)` followed by
+    `return flag` / `if flag: ...`: the builder turns that assignment into the loop the call stands for (consumed up to the deciding element)"""
+    import copy
+    counter = [0]
+
+    def is_quant(e):
+        return isinstance(e, ast.Call) and isinstance(e.func, ast.Name) and e.func.id in ('any', 'all') and len(e.args) == 1 and not e.keywords \
+            and isinstance(e.args[0], ast.GeneratorExp) and len(e.args[0].generators) == 1
+
+    def acts_on_element(e):
+        # `return any(d.give_part(p) for d in ...)`: a method of the element is called (the walk does something); a returned pure test over the
+        # elements (`return all(self._fits(k, v) for k, v in ...)`) is left as it is -- the predicate rules read that form directly
+        gen = e.args[0].generators[0]
+        names = {x.id for x in ast.walk(gen.target) if isinstance(x, ast.Name)}
+        return any(isinstance(x, ast.Call) and isinstance(x.func, ast.Attribute) and isinstance(x.func.value, ast.Name) and x.func.value.id in names
+                   for x in ast.walk(e.args[0].elt))
+
+    def hoist(e, at):
+        counter[0] += 1
+        nm = f'__quant{counter[0]}_{getattr(at, "lineno", 0)}'
+        a = ast.Assign(targets=[ast.Name(id=nm, ctx=ast.Store())], value=e)
+        ast.copy_location(a, at)
+        ast.fix_missing_locations(a)
+        return a, ast.copy_location(ast.Name(id=nm, ctx=ast.Load()), e)
+
+    def block(sts):
+        out, changed = [], False
+        for st in sts:
+            if isinstance(st, ast.Return) and st.value is not None and is_quant(st.value) and acts_on_element(st.value):
+                a, ref = hoist(st.value, st)
+                r = copy.copy(st)
+                r.value = ref
+                out += [a, r]
+                changed = True
+                continue
+            if isinstance(st, ast.If):
+                t = st.test
+                neg = isinstance(t, ast.UnaryOp) and isinstance(t.op, ast.Not)
+                q = t.operand if neg else t
+                st2 = st
+                pre = []
+                if is_quant(q):
+                    a, ref = hoist(q, st)
+                    st2 = copy.copy(st)
+                    st2.test = ast.copy_location(ast.UnaryOp(op=ast.Not(), operand=ref), t) if neg else ref
+                    pre = [a]
+                    changed = True
+                b1, c1 = block(st2.body)
+                b2, c2 = block(st2.orelse)
+                if c1 or c2:
+                    if st2 is st:
+                        st2 = copy.copy(st)
+                    st2.body, st2.orelse = b1, b2
+                    changed = True
+                out += pre + [st2]
+                continue
+            if isinstance(st, (ast.For, ast.While, ast.With, ast.Try)):
+                st2 = st
+                for fld in ('body', 'orelse', 'finalbody'):
+                    sub = getattr(st, fld, None)
+                    if isinstance(sub, list) and sub and isinstance(sub[0], ast.stmt):
+                        r, ch = block(sub)
+                        if ch:
+                            if st2 is st:
+                                st2 = copy.copy(st)
+                            setattr(st2, fld, r)
+                            changed = True
+                out.append(st2)
+                continue
+            out.append(st)
+        return out, changed
+    res, ch = block(list(stmts))
+    return res if ch else stmts
+
+
+
+def split_conditional_returns(fn, stmts):
+    """`return a if c else b` is `if c: return a` / `else: return b` (top level of the function body and of its blocks)"""
+    import copy
+
+    def block(sts):
+        out, changed = [], False
+        for st in sts:
+            if isinstance(st, ast.Return) and isinstance(st.value, ast.IfExp):
+                v = st.value
+                r1, r2 = copy.copy(st), copy.copy(st)
+                r1.value, r2.value = v.body, v.orelse
+                b1, _ = block([r1])
+                b2, _ = block([r2])
+                i = ast.If(test=v.test, body=b1, orelse=b2)
+                ast.copy_location(i, st)
+                out.append(i)
+                changed = True
+                continue
+            st2 = st
+            if isinstance(st, (ast.If, ast.For, ast.While, ast.With, ast.Try)):
+                for fld in ('body', 'orelse', 'finalbody'):
+                    sub = getattr(st, fld, None)
+                    if isinstance(sub, list) and sub and isinstance(sub[0], ast.stmt):
+                        r, ch = block(sub)
+                        if ch:
+                            if st2 is st:
+                                st2 = copy.copy(st)
+                            setattr(st2, fld, r)
+                            changed = True
+            out.append(st2)
+        return out, changed
+    res, ch = block(list(stmts))
+    return res if ch else stmts
+
+
+
+def index_filter_scan_to_snapshot_loop(fn, stmts):
+    """`i = 0; while i < len(L): x = L[i]; if C(x): ...; del L[i]; ... else: i += 1` -- the in-place filter scan -- is
+    `for x in [x for x in L if C(x)]: ...; L.remove(x); ...` when C only reads fields of x that the body does not write (and calls nothing):
+    the same elements are processed in the same order, and the element deleted at position i is the first one equal to x that is left."""
+    import copy
+    out = list(stmts)
+    changed = False
+    k = 0
+    while k + 1 < len(out):
+        st, nxt = out[k], out[k + 1]
+        k += 1
+        if not (isinstance(st, ast.Assign) and len(st.targets) == 1 and isinstance(st.targets[0], ast.Name) and isinstance(st.value, ast.Constant) and st.value.value == 0
+                and type(st.value.value) is int and isinstance(nxt, ast.While) and not nxt.orelse and len(nxt.body) == 2):
+            continue
+        i = st.targets[0].id
+        t = nxt.test
+        if not (isinstance(t, ast.Compare) and len(t.ops) == 1 and isinstance(t.ops[0], ast.Lt) and isinstance(t.left, ast.Name) and t.left.id == i
+                and isinstance(t.comparators[0], ast.Call) and isinstance(t.comparators[0].func, ast.Name) and t.comparators[0].func.id == 'len' and len(t.comparators[0].args) == 1):
+            continue
+        L = t.comparators[0].args[0]
+        Lt = ast.unparse(L)
+        a, br = nxt.body
+        if not (isinstance(a, ast.Assign) and len(a.targets) == 1 and isinstance(a.targets[0], ast.Name) and ast.unparse(a.value) == f'{Lt}[{i}]' and isinstance(br, ast.If)
+                and len(br.orelse) == 1):
+            continue
+        x = a.targets[0].id
+        inc = br.orelse[0]
+        if not ((isinstance(inc, ast.AugAssign) and isinstance(inc.target, ast.Name) and inc.target.id == i and isinstance(inc.op, ast.Add)
+                 and isinstance(inc.value, ast.Constant) and inc.value.value == 1)):
+            continue
+        removals = [b for b in br.body if (isinstance(b, ast.Delete) and len(b.targets) == 1 and ast.unparse(b.targets[0]) == f'{Lt}[{i}]') or
+                    (isinstance(b, ast.Expr) and isinstance(b.value, ast.Call) and ast.unparse(b.value) == f'{Lt}.pop({i})')]
+        if len(removals) != 1:
+            continue
+        others = [b for b in br.body if b is not removals[0]]
+        if any(isinstance(y, ast.Name) and y.id in (i,) for b in others for y in ast.walk(b)) or \
+                any(isinstance(y, (ast.Continue, ast.Break, ast.Return)) for b in br.body for y in ast.walk(b)):
+            continue
+        cond = br.test
+        if any(isinstance(y, (ast.Call, ast.Lambda, ast.NamedExpr)) for y in ast.walk(cond)):
+            continue
+        read = {y.attr for y in ast.walk(cond) if isinstance(y, ast.Attribute) and isinstance(y.value, ast.Name) and y.value.id == x}
+        written = {y.attr for b in br.body for y in ast.walk(b) if isinstance(y, ast.Attribute) and isinstance(y.ctx, (ast.Store, ast.Del))}
+        names_in_cond = {y.id for y in ast.walk(cond) if isinstance(y, ast.Name)}
+        stored_names = {y.id for b in br.body for y in ast.walk(b) if isinstance(y, ast.Name) and isinstance(y.ctx, ast.Store)}
+        if read & written or names_in_cond & stored_names:
+            continue
+        if any(isinstance(y, ast.Name) and y.id in (i, x) for r in out[k + 1:] for y in ast.walk(r)):
+            continue
+        rm = ast.Expr(value=ast.Call(func=ast.Attribute(value=copy.deepcopy(L), attr='remove', ctx=ast.Load()), args=[ast.Name(id=x, ctx=ast.Load())], keywords=[]))
+        ast.copy_location(rm, removals[0])
+        new_body = [rm if b is removals[0] else b for b in br.body]
+        comp = ast.ListComp(elt=ast.Name(id=x, ctx=ast.Load()),
+                            generators=[ast.comprehension(target=ast.Name(id=x, ctx=ast.Store()), iter=copy.deepcopy(L), ifs=[copy.deepcopy(cond)], is_async=0)])
+        loop = ast.For(target=ast.Name(id=x, ctx=ast.Store()), iter=comp, body=new_body, orelse=[], type_comment=None)
+        ast.copy_location(loop, nxt)
+        for y in ast.walk(loop):
+            if not hasattr(y, 'lineno'):
+                ast.copy_location(y, nxt)
+        ast.fix_missing_locations(loop)
+        out[k - 1:k + 1] = [loop]
+        changed = True
+    return out if changed else stmts
+
+
 def index_while_to_for(fn, stmts):
     """`i = 0; while i < len(L): ... L[i] ...; i += 1` is the loop `for x in L: ... x ...`: a list iterator is exactly such an index walk (it
     re-reads the length at every step, so elements appended during the walk are visited by both).  Rewritten when the index is used for
@@ -1925,7 +2244,7 @@ def prepass(P, fn):
     cached = fn.__dict__.get('_sa_prepass')
     if cached is not None and cached[0] is fn.body and cached[1] is P:
         return cached[2]
-    res = inline_assigned_predicates(P, fn, inline_pure_predicate_locals(P, fn, unstar_calls(fn, inline_foreign_setters(P, fn, inline_foreign_tail_calls(P, fn, inline_element_predicates(P, fn, index_while_to_for(fn, search_scan_to_index_scan(P, fn, copy_propagate(fn)))))))))
+    res = inline_assigned_predicates(P, fn, inline_pure_predicate_locals(P, fn, unstar_calls(fn, inline_foreign_setters(P, fn, inline_foreign_tail_calls(P, fn, inline_element_predicates(P, fn, index_while_to_for(fn, search_scan_to_index_scan(P, fn, hoist_any_all_tests(fn, split_conditional_returns(fn, desugar_dict_comprehension_stores(fn, inline_self_expression_methods(P, fn, copy_propagate(fn)))))))))))))
     fn.__dict__['_sa_prepass'] = (fn.body, P, res)
     return res
 
